@@ -254,6 +254,26 @@ def r_cancel(ctx):
     good = outcomes.get(True) == {('err', 'BuildCancelled')} and outcomes.get(False) == {('ok', None)} and None not in outcomes
     ctx.check(good, rule, 'cancelled/truth-table', f.loc(), 'callback true => Err(BuildCancelled); false => Ok(())',
               'BuildOption::cancelled does not map the callback answer to Err(BuildCancelled)/Ok(()): %s' % {str(k): sorted(map(str, v)) for k, v in outcomes.items()})
+    # every poll's error reaches the caller unchanged: consumed by `?`/return in a body whose error type is arroy's
+    # own Error (where the conversion is the identity); never rewrapped by map_err/or_else into another error
+    for g in F.lib_fns():
+        for c in g.calls():
+            if not c.callee.endswith('::cancelled') or not c.callee.startswith('writer::'):
+                continue
+            l = c.dest['l']
+            key = '%s/poll-value' % g.path
+            bad = None
+            for u in g.uses(l):
+                if u['k'] == 'arg' and u['whole']:
+                    cal = u['call'].callee
+                    if cal.endswith(('::map_err', '::or_else', '::or', '::and', '::and_then', '::map')):
+                        bad = 'passed to `%s`' % short(cal)
+                    elif cal.endswith('Try::branch'):
+                        e = result_err(g.ret_ty())
+                        if e not in ('error::Error', 'Error'):
+                            bad = '`?` in a body returning Result<_, %s>' % e
+            ctx.check(bad is None, rule, key, c.loc(), 'cancellation error propagated unchanged',
+                      'the cancellation poll in `%s` is rewrapped (%s): the caller no longer receives Error::BuildCancelled' % (g.path, bad))
     # the build entry polls before doing anything and propagates
     be = C06.build_entry(F)
     if ctx.need(be is not None, rule, 'build entry'):
